@@ -128,9 +128,9 @@ def run(ctx):
         pa = C.parse_sx(ra)[0]
         has_map = any(nd.t == "map" for nd in h.nodes)
         zero_byte = any(x == b"" for x in canon)
-        if b'":".' in jsons[i] or b'[".' in jsons[i] or b',".' in jsons[i]:
+        if b'":".' in jsons[i] or b'[".' in jsons[i] or b',".' in jsons[i] or b'"namespace":""' in jsons[i]:
             # references to the null namespace from inside a namespace are spelled ".Name": read by the Java implementation and by this
-            # crate, not by apache-avro (Rust) 0.17
+            # crate, not by apache-avro (Rust) 0.17; likewise an explicit "namespace":""
             dist["apache-read-skipped/leading-dot-reference"] += 1
         elif zero_byte and pa[0] != "ok":
             dist["apache-read-skipped/zero-byte-datums"] += 1      # apache-avro 0.17 cannot read blocks of zero-byte datums
